@@ -1,0 +1,35 @@
+// Copyright © 2024 Attestant Limited.
+// Licensed under the Apache License, Version 2.0 (the "License");
+// you may not use this file except in compliance with the License.
+// You may obtain a copy of the License at
+//
+//     http://www.apache.org/licenses/LICENSE-2.0
+//
+// Unless required by applicable law or agreed to in writing, software
+// distributed under the License is distributed on an "AS IS" BASIS,
+// WITHOUT WARRANTIES OR CONDITIONS OF ANY KIND, either express or implied.
+// See the License for the specific language governing permissions and
+// limitations under the License.
+
+//go:build verif
+
+package advanced
+
+import "sync/atomic"
+
+var verifHook atomic.Pointer[func(point string, job string)]
+
+// VerifSetHook installs (or with nil removes) a function called at the scheduler's observation points.
+func VerifSetHook(hook func(point string, job string)) {
+	if hook == nil {
+		verifHook.Store(nil)
+		return
+	}
+	verifHook.Store(&hook)
+}
+
+func verifPoint(point string, job string) {
+	if hook := verifHook.Load(); hook != nil {
+		(*hook)(point, job)
+	}
+}
